@@ -192,7 +192,9 @@ class DataIterator(types.Recoverable, Iterator[_T]):
 
   @property
   def state(self) -> ShardConfig:
-    return dc.replace(self.config.state, start_index=self._index)
+    # The skip to the restored start index only happens at the next `next()`.
+    start_index = max(self._index, self.config.state.start_index)
+    return dc.replace(self.config.state, start_index=start_index)
 
   def __next__(self) -> _T:
     """Iterates the data source given a shard index."""
